@@ -2065,6 +2065,21 @@ def rerun_keeps_triggered_by(ctx, rule):
                   for t in x.targets) and
               isinstance(x.value, (ast.Dict, ast.Call, ast.Constant))
               and not isinstance(x.targets[0], ast.Name)]
+    # ... and it does clean: the counters of the policies (retry number,
+    # wait-before 'skip' mark, with-items bookkeeping) of the failed attempt
+    # would otherwise limit the new one ("as if the task had produced its
+    # new result the first time")
+    # (cleared under no condition but the context itself being non-empty)
+    okc = bool(clears) and all(
+        [(norm(a), t) for a, t in U.guard_atoms(cfg, n)] in (
+            [], [(norm(c.func.value), True)])
+        for n, c in clears)
+    rule.check(okc or bool(resets),
+               ctx.construct(f, extra='policy context of the failed attempt '
+                             'dropped'),
+               'the runtime context of a re-run task is not cleared whenever '
+               'there is one: the retry counter / policy marks of the '
+               'failed attempt carry over into the new one', ctx.loc(f))
     if not clears and not resets:
         drops = [x for x in own_nodes(f.node) if (
             isinstance(x, ast.Call) and U.call_name(x) in ('pop', 'popitem')
